@@ -107,12 +107,23 @@ reg("C10", exc_ops=set(), nontrivial=nt_links, hook="paglinks", obs_fail=False,
              "Clear": 0, "DeleteWe": 1, "RemovePrefix": 1, "MovePrefix": 2},
     profile={"raw": 0.0, "long": 0.2, "nlrus": 16, "extend": 0.2, "continue": 0.8, "concentrate": 1}, steps=(24, 32),
     title="Pagelink pagination")
+reg("C11", exc_ops={"Reopen", "Clear"}, nontrivial=nt_pages, hook="life",
+    roles=[("file", ()), ("file", ("Reopen",))], pairname="C11.twin", prefixes=["C11."],
+    weights={"Reopen": 22, "Clear": 5, "AddRule": 6, "CreateWe": 8},
+    profile={"raw": 0.1, "long": 0.3, "nlrus": 10}, n=(40, 500), steps=(14, 22), title="Close/reopen/clear")
 reg("C12", exc_ops=set(), nontrivial=nt_we,
     weights={"CreateWe": 12, "DeleteWe": 8, "Reopen": 10, "AddRule": 8, "Clear": 3},
     profile={"raw": 0.0, "long": 0.1}, title="Webentity ids")
 reg("C13", exc_ops=set(), nontrivial=nt_we, hook="hierarchy", obs_fail=False,
     weights={"CreateWe": 14, "AddPrefix": 10, "MovePrefix": 8, "AddRule": 8, "AddPage": 25, "RemovePrefix": 4},
     profile={"raw": 0.0, "long": 0.1, "nlrus": 14, "extend": 0.25}, title="Hierarchy / pruning flag")
+reg("C14", exc_ops=set(), nontrivial=nt_pages, hook="readonly", obs_fail=False,
+    weights={"Clear": 3, "CreateWe": 8, "AddLinks": 16},
+    profile={"raw": 0.1, "long": 0.3, "nlrus": 10}, n=(40, 400), steps=(10, 16), title="Queries never modify")
+reg("C15", exc_ops=ALL_OPS, nontrivial=nt_long, hook="pair",
+    roles=[("file", ()), ("memory", ())], pairname="C15.pair", prefixes=["C15."], prehook=hooks.prehook_mmap,
+    weights={"Reopen": 0, "Clear": 3, "AddRule": 6},
+    profile={"raw": 0.3, "long": 0.7, "nlrus": 10}, n=(40, 500), steps=(12, 20), title="Memory == file")
 reg("C19", exc_ops=set(), nontrivial=nt_long, hook="metrics",
     profile={"long": 0.9, "raw": 0.3}, title="Storage accounting")
 
@@ -140,6 +151,22 @@ def make_traces(pid, cfg, tier, seed, work):
         if impl.TIMEOUTS[0] >= 3:
             break      # the code under test hangs: enough material for a verdict
     return traces, {"random_histories": n, "steps_per_history": steps, "family_dropped_draws": dropped}
+
+
+def make_pairs(pid, cfg, tier, seed, work):
+    """Traces come in pairs driven in lockstep (C15: file + memory; C11: file + never-closed twin)."""
+    ti = 0 if tier == "quick" else 1
+    n, steps = cfg["n"][ti], cfg["steps"][ti]
+    prof = dict(gen_profile(cfg))
+    hook = getattr(hooks, "hook_" + cfg["hook"]) if cfg["hook"] else None
+    traces = []
+    for i in range(n):
+        d = gen.Driver(seed * 1000003 + i * 7919 + 29, prof, cfg["roles"][0][0])
+        traces += runner.run_online_multi(d, cfg["roles"], steps, hook=hook, tid=2 * i, pairname=cfg["pairname"],
+                                          prehook=cfg.get("prehook"))
+        if impl.TIMEOUTS[0] >= 3:
+            break
+    return traces, {"paired_histories": n, "steps_per_history": steps, "roles": [r[0] for r in cfg["roles"]]}
 
 
 def gen_profile(cfg):
@@ -216,7 +243,7 @@ def run_check(pid, tier, seed, work, t0):
                             % (name, r.get("tail", "")))
         mcs.append(r)
     # 2. behaviours replayed into the real code
-    traces, gstats = make_traces(pid, cfg, tier, seed, work)
+    traces, gstats = (make_pairs if cfg.get("roles") else make_traces)(pid, cfg, tier, seed, work)
     for mk in cfg["extra_sources"]:
         more, st = mk(pid, cfg, tier, seed, work, len(traces))
         traces += more
